@@ -1,6 +1,6 @@
 from collections.abc import Hashable
 from functools import singledispatch, wraps
-from typing import Any, Callable, Union
+from typing import Any, Callable, Optional, Union
 
 import narwhals.stable.v1 as nw
 import numpy
@@ -24,26 +24,45 @@ def propagate_metadata(func: Callable) -> Callable:
     return wrapper
 
 
-def narwhals_series_to_pandas(series: Any) -> pandas.Series:
+def narwhals_categories(series: Any) -> Optional[list]:
+    """
+    The declared categories (in declared order) of a categorical narwhals
+    series, or `None` if the series is not categorical.
+    """
+    if series.dtype in (nw.Categorical, nw.Enum):
+        return series.cat.get_categories().to_list()
+    return None
+
+
+def narwhals_series_to_pandas(
+    series: Any, categories: Optional[list] = None
+) -> pandas.Series:
     """
     Convert a narwhals series into a pandas series, keeping the declared
     categories (and their order) of categorical data even when the backend's
     own conversion would only carry over the values (e.g. pyarrow dictionary
     arrays).
+
+    Args:
+        series: The narwhals series to convert.
+        categories: The declared categories of the series, if they were looked
+            up beforehand (an Arrow column that has lost all of its rows no
+            longer knows them).
     """
     converted = series.to_pandas()
     if series.dtype in (nw.Categorical, nw.Enum) and not isinstance(
         converted.dtype, pandas.CategoricalDtype
     ):
-        # Rebuilt from the plain values: the backend's conversion of
-        # dictionary-encoded data is also not reliable for nulls.
-        converted = pandas.Series(
-            pandas.Categorical(
-                series.to_list(), categories=series.cat.get_categories().to_list()
-            ),
-            index=converted.index,
-            name=converted.name,
-        )
+        if categories is None and len(series):
+            categories = narwhals_categories(series)
+        if categories is not None:
+            # Rebuilt from the plain values: the backend's conversion of
+            # dictionary-encoded data is also not reliable for nulls.
+            converted = pandas.Series(
+                pandas.Categorical(series.to_list(), categories=categories),
+                index=converted.index,
+                name=converted.name,
+            )
     return converted
 
 
